@@ -21,3 +21,13 @@ Theorem C10_reindent_total : forall o s n,
   is_group n = true -> rx_safe false false n = true -> exists r, reindent_stmt o s n = Ok r.
 Proof. exact reindent_stmt_total. Qed.
 Print Assumptions C10_reindent_total.
+
+(* reindent_aligned (exact model): every keyword selected by the split-word test is preceded by the inserted line break,
+   unconditionally; the filter returns exactly on the decidable class al_safe and otherwise raises ValueError/IndexError *)
+From SqlModel.Filters Require Import Aligned AlignedSpec AlignedSplit AlignedFacts AlignedInst AlignedInstFacts.
+Definition C10_aligned_own_line := aligned_own_line.
+Definition C10_aligned_own_line_text := aligned_own_line_text.
+Definition C10_aligned_rspec := aligned_stmt_rspec.
+Definition C10_aligned_total_refuted := aligned_total_refuted.
+Print Assumptions aligned_own_line.
+Print Assumptions aligned_stmt_rspec.
